@@ -306,6 +306,83 @@ def handover(sx, options, miu_c, miu_s, small_hi):
     return [len(link.sent['c']), len(link.sent['s'])]
 
 
+def handover_two_clients(sx, pads1, pads2, miu1, miu2, small_hi):
+    """two clients with connections of different MIUs are served by the SAME
+    HandoverServer object (one serve() thread each, as the server's accept
+    loop starts them): client 1 exchanges a message, then client 2 connects
+    and exchanges one, then client 1 sends its second request.  What serve()
+    keeps per connection must not be shared between the threads."""
+    m1 = choose_miu(sx, "miu1", miu1, small_hi)
+    m2 = choose_miu(sx, "miu2", miu2, small_hi)
+    adapter = NdefAdapter()
+    nfc.handover.client.ndef = adapter
+    nfc.handover.server.ndef = adapter
+    links = [Link(m1, m1), Link(m2, m2)]
+    req = [[encode(handover_message("Hr", a, 16 * i)) for i, (a, b) in enumerate(pads)]
+           for pads in (pads1, pads2)]
+    # the response is chosen by what the request asks for (pad of the
+    # request), so that both clients can be told apart
+    table = {}
+    for k, pads in enumerate((pads1, pads2)):
+        for i, (a, b) in enumerate(pads):
+            table[req[k][i]] = handover_message("Hs", b, 16 * i + 7 + 100 * k)
+
+    class Server(nfc.handover.server.HandoverServer):
+        def __init__(self, llc):
+            nfc.handover.server.HandoverServer.__init__(self, llc)
+            self.seen = []
+
+        def process_handover_request_message(self, records):
+            q = encode(records)
+            self.seen.append(q)
+            return table[q]
+
+    server = Server(FakeLLC(links[0], 's'))
+    clients = []
+    for link in links:
+        listen = nfc.llcp.Socket(FakeLLC(link, 's'), nfc.llcp.DATA_LINK_CONNECTION)
+        conn = listen.accept()
+        link.start_server(lambda conn=conn: server.serve(conn))
+        clients.append(nfc.handover.client.HandoverClient(FakeLLC(link, 'c')))
+    got = {}
+    order = [(0, 0), (1, 0), (0, 1), (1, 1)]
+    try:
+        try:
+            connected = [False, False]
+            for k, i in order:
+                if i >= len(req[k]):
+                    continue
+                if not connected[k]:
+                    clients[k].connect()
+                    connected[k] = True
+                ok = clients[k].send_octets(req[k][i])
+                got[(k, i)] = (ok, clients[k].recv_octets(timeout=1.0))
+            for k in (0, 1):
+                clients[k].close()
+                links[k].finish()
+        except Deadlock:
+            sx.check(False, "handover-two-clients:deadlock")
+    finally:
+        for link in links:
+            link.abort()
+    for (k, i), (ok, rsp) in sorted(got.items()):
+        who = "client%d:%s" % (k + 1, "first" if i == 0 else "later")
+        sx.check(ok is True, "handover-two-clients:send_octets-not-true:" + who)
+        sx.check(rsp is not None and bytes(rsp) == encode(table[req[k][i]]),
+                 "handover-two-clients:response-not-returned-intact:" + who)
+    sx.check(sorted(server.seen) == sorted(q for r in req for q in r),
+             "handover-two-clients:handler-calls-differ-from-requests")
+    for k in (0, 1):
+        for side in ('c', 's'):
+            for m in links[k].sent[side]:
+                sx.check(len(m) <= links[k].send_miu[side],
+                         "handover-two-clients:fragment-exceeds-connection-miu")
+    sx.reach("handover-two-clients:exchanged")
+    if len(links[0].sent['s']) > len(req[0]):
+        sx.reach("handover-two-clients:response-fragmented")
+    return [len(l.sent['s']) for l in links]
+
+
 # ----------------------------------------------------------------------------
 # the small symbolic MIU stands for the real range only if the code treats
 # the MIU as an opaque integer: checked on the syntax tree on every run
@@ -454,13 +531,18 @@ def partitions(tier):
     ho("handover:2175", [[[2175 - 56, 2175 - 49]], [[2175 - 57, 2175 - 48]],
                          [[2 * 2175 - 56, 40]]], "2175", "2175")
     # two requests on one connection
+    for nm, a, b in (("sym-sym", "sym", "sym"), ("128-1000", "128", "1000"), ("2175-128", "2175", "128")):
+        parts.append(dict(name="handover-two-clients:" + nm, fn="handover_two_clients", params=dict(
+            pads1=[[3, 40], [9, 200]] if a != "sym" else [[0, 20], [3, 30]],
+            pads2=[[5, 60]] if a != "sym" else [[1, 25]],
+            miu1=a, miu2=b, small_hi=24)))
     ho("handover-two:sym", [[[0, 0], [1, 1]], [[5, 30], [20, 2]]], "sym", "sym")
     ho("handover-two:128", [[[0, 0], [1, 1]], [[100, 90], [20, 130]]], "128", "128")
     parts += c06_stack.partitions(tier)     # the same over the real LLCP stack
     return parts
 
 
-MUST_REACH = ["put:delivered", "put:fragmented", "put:refused", "get:returned",
+MUST_REACH = ["handover-two-clients:exchanged", "handover-two-clients:response-fragmented", "put:delivered", "put:fragmented", "put:refused", "get:returned",
               "get:excess-data", "get:refused", "get:response-fragmented",
               "get:request-fragmented", "handover:exchanged",
               "handover:request-fragmented", "handover:response-fragmented",
@@ -495,7 +577,7 @@ OUTSIDE = [
     "contents are concrete (enumeration of sizes, only the MIU is symbolic)",
     "MIU values 25..127 and 130..2174 other than through the opaque-integer "
     "argument (syntactic check 'miu-opaque' on every run)",
-    "several clients served concurrently; the accept loop threads",
+    "several SNEP clients served concurrently; more than two handover clients (two connections served by one HandoverServer object are interleaved at message granularity); the accept loop threads",
 ]
 ASSUMPTIONS = [
     "env.sockpair: reliable, ordered, boundary-preserving data link connection "
